@@ -53,6 +53,7 @@ struct State {
     switches_inside_call: u64,
     crashes_fired: u64,
     stall_handoffs: u64,
+    os_tids: Vec<i32>,
     abort: Option<&'static str>,
 }
 
@@ -78,6 +79,15 @@ const STALL: Duration = Duration::from_secs(30);
 /// The baton holder made no scheduling progress for this long: assume it is blocked on something
 /// outside the seams (a real lock owned by a parked thread) and let a parked thread run as well.
 const HANDOFF: Duration = Duration::from_secs(3);
+/// Poll interval of parked threads; consecutive polls that find the baton holder asleep in
+/// the kernel (state S in /proc) without any scheduling progress also count as "blocked".
+const POLL: Duration = Duration::from_millis(3);
+
+fn os_thread_state(os_tid: i32) -> Option<char> {
+    let stat = std::fs::read_to_string(format!("/proc/self/task/{os_tid}/stat")).ok()?;
+    let rest = &stat[stat.rfind(')')? + 1..];
+    rest.trim_start().chars().next()
+}
 
 impl Sched {
     pub fn new(n: usize, plan: &SchedPlan, record: bool) -> Self {
@@ -108,6 +118,7 @@ impl Sched {
                 switches_inside_call: 0,
                 crashes_fired: 0,
                 stall_handoffs: 0,
+                os_tids: vec![0; n],
                 abort: None,
             }),
             cv: Condvar::new(),
@@ -156,6 +167,7 @@ impl Sched {
     /// Block until this simulated thread holds the baton. The last thread to arrive starts the run.
     pub fn thread_start(&self, tid: usize) {
         let mut s = self.lock();
+        s.os_tids[tid] = unsafe { libc::syscall(libc::SYS_gettid) } as i32;
         s.started += 1;
         if s.started == self.n {
             let first = Self::pick(&mut s, None);
@@ -168,6 +180,7 @@ impl Sched {
     fn wait_for_baton(&self, mut s: std::sync::MutexGuard<'_, State>, tid: usize) {
         let mut waited = Duration::ZERO;
         let mut last_step = s.step;
+        let mut holder_asleep = 0u32;
         loop {
             if s.abort.is_some() {
                 drop(s);
@@ -179,15 +192,24 @@ impl Sched {
             let t0 = Instant::now();
             let (guard, _) = self
                 .cv
-                .wait_timeout(s, Duration::from_millis(500))
+                .wait_timeout(s, POLL)
                 .unwrap_or_else(|e| e.into_inner());
             s = guard;
             if s.step != last_step {
                 last_step = s.step;
                 waited = Duration::ZERO;
+                holder_asleep = 0;
             } else {
                 waited += t0.elapsed();
-                if waited > HANDOFF
+                // Is the baton holder asleep in the kernel (e.g. on a futex) instead of computing?
+                let asleep = match s.current {
+                    Some(h) if h != tid && s.os_tids[h] != 0 => {
+                        os_thread_state(s.os_tids[h]) == Some('S')
+                    }
+                    _ => false,
+                };
+                holder_asleep = if asleep { holder_asleep + 1 } else { 0 };
+                if (waited > HANDOFF || holder_asleep >= 3)
                     && s.current != Some(tid)
                     && s.status[tid] == Status::Runnable
                     && s.started == self.n
